@@ -42,7 +42,8 @@ TRUSTED_BASE = ["Coq 8.16.1 kernel (coqc), vm_compute only",
                 "Sess.SimpleCodec.simple_decode as the decoder of the executable model (exact on the well-formed messages "
                 "fix8 itself writes)",
                 "ocaml/prelude.ml + ocaml/c21_driver.ml, harness/h_c21.cpp + sess_harness.hpp + vsock.hpp + vclock.cpp, vlib"]
-ASSUMPTIONS = ["a reconnect re-creates BOTH sessions on their FilePersister files (what an acceptor's SessionInstance and a "
+ASSUMPTIONS = ["sequence numbers stay below 2^31 (MsgSeqNum is a Field<int>: 2^31 is written as 34=-2147483648)",
+               "a reconnect re-creates BOTH sessions on their FilePersister files (what an acceptor's SessionInstance and a "
                "restarted initiator do; an initiator that keeps its Session object calls recover_seqnums in start() all the same)",
                "a process restart lets the bytes in flight towards the surviving side arrive first (TCP), its answers are lost",
                "the virtual clock stands still (no heartbeats / test requests); pm_thread; always_seqnum_assign off",
@@ -51,7 +52,9 @@ RULE = ("schema: FIX42UTEST plus ten application messages with two-character Msg
         "(A0 AD 0X 1Z 2B 3C 4D 5E DD ZZ; derived schema utest2c); messages sent are D/F/8 mixed with these.  "
         "schedules over SI/SA (application send on the initiator/acceptor), DA/DI (deliver what is in flight towards the "
         "acceptor/initiator), D (deliver until quiet), DROP (in-flight bytes lost, both sides reconnect), RI/RA (process "
-        "restart); every schedule ends with D.  quick: all schedules up to length 2, all fault-free ones over {SI,SA,DA,DI} up "
+        "restart), CFG a b (both sides re-created with forced start numbers: initiator sends from a / expects b; later "
+        "reconnects recover from the files) with a, b around and beyond 8192 up to 2^31 - 100, followed by traffic and a reconnect / "
+        "restart; every schedule ends with D.  quick: all schedules up to length 2, all fault-free ones over {SI,SA,DA,DI} up "
         "to length 4 after the logon exchange, and a random sample of longer ones (up to 12 operations, mostly fault-free "
         "prefixes with one or two faults).  thorough: ALL schedules up to length 4 over the 8 operations, all schedules up to "
         "length 5 over {SA, SI, D, DROP} after the logon exchange, random beyond.  non-trivial = at least one application "
@@ -157,6 +160,9 @@ def render(ops, rng=None, types=None):
     return "|".join(out)
 
 
+# (numbers stay below 2^31: MsgSeqNum is a Field<int>, 2^31 goes out as 34=-2147483648 -- outside the modelled domain)
+BIGNUMS = [1, 5, 8190, 8191, 8192, 8193, 8200, 65535, 65536, 2**31 - 100]
+BIGNUMS_QUICK = [5, 8191, 8192, 8193, 65536, 2**31 - 100]
 ALL = ["SI", "SA", "DA", "DI", "D", "DROP", "RI", "RA"]
 CLEAN = ["SI", "SA", "DA", "DI"]
 
@@ -168,7 +174,7 @@ def valid(ops):
     for o in ops:
         if o in ("D", "DA"):
             logged = True
-        elif o in ("DROP", "RI", "RA"):
+        elif o in ("DROP", "RI", "RA") or o.startswith("CFG"):
             logged = False
         elif o == "SA" and not logged:
             return False
@@ -200,6 +206,21 @@ def gen_cases(rng, tier):
         fault = ["DROP", "RI", "RA"][k % 3]
         add(["D", "SI", "SA", "SI", "SA", "D", fault, "D", "SI", "SA", "SA", "SI"], "two-char-types", types=[t, t, "D", t])
         add(["D", "SA", "SI", "DA", "DI", "SI", "SA"], "two-char-types", types=[t, TWOCHAR[(k + 3) % len(TWOCHAR)], "F"])
+    # carried-over numbers around and beyond 8192 (the FilePersister index record of a message holds its length, <= 8192,
+    # where the control record holds the expected receive number; a message's record holds an offset where the control
+    # record holds the send number) up to 2^31: the operators force the numbers (CFG a b: initiator sends from a,
+    # expects b), a few messages each way, then a reconnect / restart that must recover them from the files
+    big = BIGNUMS if thorough else BIGNUMS_QUICK
+    k = 0
+    for a in big:
+        for b in big:
+            if not thorough and a < 8000 and b < 8000:
+                continue
+            for fault in (["DROP", "RI", "RA"] if thorough else [["DROP", "RI", "RA"][k % 3]]):
+                k += 1
+                pre = [["SI", "SA"], ["SA", "SI", "SI"], []][k % 3]
+                add(["CFG %d %d" % (a, b), "D"] + pre + ["D", fault, "D", "SI", "SA"], "carried-over-numbers",
+                    types=["D", TWOCHAR[k % len(TWOCHAR)]])
     if thorough:
         for n in range(1, 4):
             for ops in itertools.product(["SI", "SA", "DA", "DI", "DROP"], repeat=n):
